@@ -121,6 +121,12 @@ _Bool BaseKillPlugin__pastPrekillHookTimeout(BaseKillPlugin *self, OomdContext c
 uint64_t g_batch_left;             /* pushes still expected in the current sibling batch (rank of the next push) */
 CgroupContext g_batch_root; _Bool g_batch_is_children; BaseKillPlugin_KillCandidate g_cur_kc;
 uint64_t g_pushes;
+/* order ledger for rebuilding the saved DFS stack after a prekill hook (resumeFromPrekillHook): for TWO arbitrary watched
+   indices g_wa < g_wb of the serialised stack: whether each is on the rebuilt stack and at which position; g_ser_i is the
+   serialised element being processed.  Candidates may be dropped (a vanished one ends the fallback below it), but the ones
+   kept stay IN THE SAME ORDER, so the best-ranked remaining candidate is still on top and fallback continues in rank order. */
+_Bool g_rfh_mode, g_a_set, g_b_set; uint64_t g_wa, g_wb, g_pos_a, g_pos_b, g_ser_i;
+#define RFH_ORDER_OK(n) ((!g_a_set || g_pos_a < (n)) && (!g_b_set || g_pos_b < (n)) && (!(g_a_set && g_b_set) || g_pos_a < g_pos_b))
 #define KC_OK(k) (ALLOWED((k).cgroupCtx))
 void vec_BaseKillPlugin_KillCandidate__emplace_back(vec_BaseKillPlugin_KillCandidate *v, BaseKillPlugin_KillCandidate k)
 {
@@ -132,9 +138,30 @@ void vec_BaseKillPlugin_KillCandidate__emplace_back(vec_BaseKillPlugin_KillCandi
     __CPROVER_assert(!g_batch_is_children || k.killRoot == g_batch_root, "a child candidate keeps the kill root of the candidate it descends from");
     g_batch_left = g_batch_left - 1;
   }
+  if (g_rfh_mode && g_ser_i == g_wa) { g_a_set = 1; g_pos_a = v->n; }      /* order ledger of resumeFromPrekillHook */
+  if (g_rfh_mode && g_ser_i == g_wb) { g_b_set = 1; g_pos_b = v->n; }
   __CPROVER_assume(v->n < VEC_MAX);
   v->n = v->n + 1; g_pushes = g_pushes + 1;
 }
+/* insertion at an arbitrary position (not used at the pinned commit): same element invariant, the ledger positions shift */
+vecit_BaseKillPlugin_KillCandidate vec_BaseKillPlugin_KillCandidate__insert(vec_BaseKillPlugin_KillCandidate *v, vecit_BaseKillPlugin_KillCandidate pos, BaseKillPlugin_KillCandidate k)
+{
+  __CPROVER_assert(KC_OK(k), "every kill candidate is a matched cgroup or (recursive) a descendant of one"); /*@C01*/
+  __CPROVER_assert(!g_dfs_mode, "rank-order ledger of the DFS walk only models emplace_back");
+  __CPROVER_assert(pos.i <= v->n, "UB: insert() with an invalid iterator");
+  if (g_rfh_mode)
+  {
+    if (g_a_set && g_pos_a >= pos.i) g_pos_a = g_pos_a + 1;
+    if (g_b_set && g_pos_b >= pos.i) g_pos_b = g_pos_b + 1;
+    if (g_ser_i == g_wa) { g_a_set = 1; g_pos_a = pos.i; }
+    if (g_ser_i == g_wb) { g_b_set = 1; g_pos_b = pos.i; }
+  }
+  __CPROVER_assume(v->n < VEC_MAX);
+  v->n = v->n + 1; g_pushes = g_pushes + 1;
+  return pos;
+}
+void vec_BaseKillPlugin_KillCandidate__clear(vec_BaseKillPlugin_KillCandidate *v)
+{ v->n = 0; if (g_rfh_mode) { g_a_set = 0; g_b_set = 0; } }
 BaseKillPlugin_KillCandidate vec_BaseKillPlugin_KillCandidate__back(vec_BaseKillPlugin_KillCandidate v)
 {
   __CPROVER_assert(v.n > 0, "UB: vector::back() on empty vector");
@@ -213,19 +240,21 @@ opt_CgroupContext OomdContext__addToCacheAndGet__CgroupPath(OomdContext c, Cgrou
 BaseKillPlugin_SerializedKillCandidate g_skc_slot;
 BaseKillPlugin_SerializedKillCandidate nondet_skc(void);
 BaseKillPlugin_SerializedKillCandidate *vecit_BaseKillPlugin_SerializedKillCandidate__ref(vecit_BaseKillPlugin_SerializedKillCandidate it)
-{ __CPROVER_assert(it.i < it.n, "UB: vector iterator dereferenced at or past end()"); g_skc_slot = nondet_skc();
+{ __CPROVER_assert(it.i < it.n, "UB: vector iterator dereferenced at or past end()"); g_ser_i = it.i; g_skc_slot = nondet_skc();
   __CPROVER_assume(SREF_ALLOWED(g_skc_slot.target)); return &g_skc_slot; }   /* container abstraction: serialised from an ALLOWED candidate */
 
 /* ---- resumeTryingToKillSomething ---- */
 #define KILLRESULT_OK(r) ((r) == BaseKillPlugin_KillResult__SUCCESS || (r) == BaseKillPlugin_KillResult__FAILED || (r) == BaseKillPlugin_KillResult__DEFER)
 #define DFS_ASSIGNS self->prekillHookState_, g_attempts, g_successes, g_last_target, g_last_nr, g_last_ok, g_attempt_uuid, g_passed_uuid, g_passed_dry, \
   g_kills_stat, g_kmsg_records, g_dumps, g_dump_nr, g_dump_dry, g_live_inv, g_inv_in_state, g_hooks_fired, g_hook_fired_for, g_hook_path, g_hook_has_id, g_hook_id, g_past_timeout, \
-  g_batch_left, g_batch_root, g_batch_is_children, g_cur_kc, g_pushes, g_rank_vid, g_rank_n, g_rank_reversed, g_rank_allowed, g_kc_slot, g_last_now, g_cur, g_skc_slot, g_first_target_set, g_first_target
+  g_batch_left, g_batch_root, g_batch_is_children, g_cur_kc, g_pushes, g_rank_vid, g_rank_n, g_rank_reversed, g_rank_allowed, g_kc_slot, g_last_now, g_cur, g_skc_slot, g_first_target_set, g_first_target, g_ser_i, g_a_set, g_pos_a, g_b_set, g_pos_b
 CgroupContext g_cur;
 _Bool BaseKillPlugin__pastPrekillHookTimeout__stub_note;
 #define CONTRACT_resumeTrying \
   __CPROVER_requires(self == g_self && !self->prekillHookState_.has && g_live_inv == 0 && !g_inv_in_state && g_successes == 0 && ghost_exc == 0 && \
                      nextBestOptionStack.n <= VEC_MAX && TP_VALID(g_last_now)) \
+  /* called from resumeFromPrekillHook: the stack handed over is the saved one, order preserved */ /*@C03*/ \
+  __CPROVER_requires(!g_rfh_mode || RFH_ORDER_OK(nextBestOptionStack.n)) \
   __CPROVER_assigns(DFS_ASSIGNS) \
   __CPROVER_ensures(KILLRESULT_OK(__CPROVER_return_value)) \
   /* SUCCESS iff the last attempt signalled something; nothing is attacked after it */ /*@C01,C03,C17*/ \
@@ -288,6 +317,7 @@ _Bool g_entry_finished, g_entry_past;   /* what the hook / the clock said when r
                      self->prekillHookState_.val.hookInvocation != 0 && self->prekillHookState_.val.nextBestOptionStack.n <= VEC_MAX && \
                      SREF_ALLOWED(self->prekillHookState_.val.intendedVictim.target) && /* state invariant: serialised from ALLOWED candidates */ \
                      TP_VALID(g_last_now) && g_attempts == 0 && !g_dfs_mode) \
+  __CPROVER_requires(!g_rfh_mode || (g_wa < g_wb && !g_a_set && !g_b_set)) \
   __CPROVER_assigns(DFS_ASSIGNS) \
   __CPROVER_ensures(KILLRESULT_OK(__CPROVER_return_value)) \
   __CPROVER_ensures((__CPROVER_return_value == BaseKillPlugin_KillResult__SUCCESS) == (g_successes == 1) && g_successes <= 1) \
@@ -302,8 +332,9 @@ BaseKillPlugin_KillResult BaseKillPlugin__resumeFromPrekillHook(BaseKillPlugin *
         __CPROVER_old(self->prekillHookState_.val.intendedVictim.target.id.has) && HAS_ID(g_first_target) &&
         ID(g_first_target) == __CPROVER_old(self->prekillHookState_.val.intendedVictim.target.id.val)) : 1);
 #define LOOPC_BaseKillPlugin__resumeFromPrekillHook_1 \
-  __CPROVER_assigns(__begin1, nextBestOptionStack, g_skc_slot, g_batch_left, g_pushes) \
+  __CPROVER_assigns(__begin1, nextBestOptionStack, g_skc_slot, g_batch_left, g_pushes, g_ser_i, g_a_set, g_pos_a, g_b_set, g_pos_b) \
   __CPROVER_loop_invariant(__begin1.i <= __begin1.n && __end1.i == __begin1.n && nextBestOptionStack.n <= VEC_MAX) \
+  __CPROVER_loop_invariant(!g_rfh_mode || (RFH_ORDER_OK(nextBestOptionStack.n) && (!g_a_set || __begin1.i > g_wa) && (!g_b_set || __begin1.i > g_wb))) /*@C03*/ \
   __CPROVER_decreases(__begin1.n - __begin1.i)
 
 /* ---- run ---- */
@@ -326,7 +357,7 @@ PluginRet BaseKillPlugin__run(BaseKillPlugin *self, OomdContext ctx)
 vec_CgroupContext OomdContext__addToCacheAndGet__uset_CgroupPath(OomdContext c, uset_CgroupPath set)
 { vec_CgroupContext v = nondet_vec_cg(); __CPROVER_assume(v.n <= VEC_MAX); g_vec_n0 = v.n; g_rank_allowed = 1; g_batch_is_children = 0; return v; }   /* the matched cgroups: ALLOWED by definition */
 
-#define HAVOC_DFS() do { HAVOC(g_attempts); HAVOC(g_successes); HAVOC(g_last_target); HAVOC(g_last_nr); HAVOC(g_kills_stat); HAVOC(g_kmsg_records); \
+#define HAVOC_DFS() do { g_rfh_mode = 0; HAVOC(g_attempts); HAVOC(g_successes); HAVOC(g_last_target); HAVOC(g_last_nr); HAVOC(g_kills_stat); HAVOC(g_kmsg_records); \
   HAVOC(g_dumps); HAVOC(g_live_inv); HAVOC(g_inv_in_state); HAVOC(g_hooks_fired); HAVOC(g_hook_fired_for); HAVOC(g_batch_left); HAVOC(g_batch_root); \
   HAVOC(g_batch_is_children); HAVOC(g_rank_vid); HAVOC(g_rank_n); HAVOC(g_rank_reversed); HAVOC(g_rank_allowed); HAVOC(g_last_now); HAVOC(g_actx); \
   HAVOC(g_invoking); HAVOC(g_pause_calls); HAVOC(ghost_exc); HAVOC(g_first_target_set); } while (0)
@@ -335,5 +366,5 @@ void h_tryToLogAndKillCgroup(void) { BaseKillPlugin *self; OomdContext c; BaseKi
 void h_pastPrekillHookTimeout(void) { BaseKillPlugin *self; OomdContext c; HAVOC_DFS(); BaseKillPlugin__pastPrekillHookTimeout(self, c); CANARY; }
 void h_resumeTryingToKillSomething(void) { BaseKillPlugin *self; OomdContext c; vec_BaseKillPlugin_KillCandidate st; _Bool tried; HAVOC_DFS(); g_self = self; g_dfs_mode = 1; BaseKillPlugin__resumeTryingToKillSomething(self, c, st, tried); CANARY; }
 void h_tryToKillSomething(void) { BaseKillPlugin *self; OomdContext c; vec_CgroupContext init; HAVOC_DFS(); g_self = self; g_dfs_mode = 1; BaseKillPlugin__tryToKillSomething(self, c, init); CANARY; }
-void h_resumeFromPrekillHook(void) { BaseKillPlugin *self; OomdContext c; HAVOC_DFS(); g_self = self; g_dfs_mode = 0; g_first_target_set = 0; BaseKillPlugin__resumeFromPrekillHook(self, c); CANARY; }
+void h_resumeFromPrekillHook(void) { BaseKillPlugin *self; OomdContext c; HAVOC_DFS(); HAVOC(g_wa); HAVOC(g_wb); HAVOC(g_ser_i); HAVOC(g_pos_a); HAVOC(g_pos_b); g_a_set = 0; g_b_set = 0; g_rfh_mode = 1; g_self = self; g_dfs_mode = 0; g_first_target_set = 0; BaseKillPlugin__resumeFromPrekillHook(self, c); CANARY; }
 void h_run(void) { BaseKillPlugin *self; OomdContext c; HAVOC_DFS(); g_self = self; g_dfs_mode = 0; BaseKillPlugin__run(self, c); CANARY; }
